@@ -183,3 +183,10 @@ func VerifC13_FirstUse() {
 	verifSharedCheck("C13/no-unsynchronised-shared-writes")
 	verifReach("C13/firstuse/end")
 }
+
+// step calls from several goroutines return what they return in isolation: a step call racing two signal calls under
+// every bounded schedule still creates the run's step data once and hands the same data to every handler (a
+// check-then-act gap is invisible to the lockset when every single access is locked)
+func VerifC13_StepCallsIsolated() { verifStepDataRace("C13/stepcalls") }
+
+func init() { verifRegister("VerifC13_StepCallsIsolated", VerifC13_StepCallsIsolated) }
